@@ -3,14 +3,52 @@
 use crate::chk;
 use crate::ctx::{Ctx, R};
 use crate::script::Cfg;
-use crate::key::{Key, Raw};
+use crate::key::Key;
 use crate::packs::{noisy, probes};
 use crate::ptypes::SimPrefix;
 use crate::rng::{mix64, Rng};
 use crate::script::Nav;
 use crate::truth::{canonical_shape, find_key, lpm, under, Ent, ShapeNode, Truth};
 use crate::val::SimVal;
-use prefix_trie::{AsView, AsViewMut, PrefixMap, TrieView, TrieViewMut};
+use prefix_trie::{AsView, AsViewMut, PrefixMap, PrefixSet, TrieView, TrieViewMut};
+
+/// A container handed to the view packs through its *own* `AsView` / `AsViewMut` implementation
+/// (`&PrefixMap`, `&PrefixSet`, `&mut PrefixMap`, `&mut PrefixSet` each have one, and each may
+/// override the provided `view_at` / `view_mut_at`).
+pub trait ViewSrc<P: SimPrefix, T: SimVal> {
+    fn c_view(&self) -> TrieView<'_, P, T>;
+    fn c_view_at(&self, p: P) -> Option<TrieView<'_, P, T>>;
+    fn c_view_mut(&mut self) -> TrieViewMut<'_, P, T>;
+    fn c_view_mut_at(&mut self, p: P) -> Option<TrieViewMut<'_, P, T>>;
+}
+impl<P: SimPrefix, T: SimVal> ViewSrc<P, T> for PrefixMap<P, T> {
+    fn c_view(&self) -> TrieView<'_, P, T> {
+        self.view()
+    }
+    fn c_view_at(&self, p: P) -> Option<TrieView<'_, P, T>> {
+        self.view_at(p)
+    }
+    fn c_view_mut(&mut self) -> TrieViewMut<'_, P, T> {
+        self.view_mut()
+    }
+    fn c_view_mut_at(&mut self, p: P) -> Option<TrieViewMut<'_, P, T>> {
+        self.view_mut_at(p)
+    }
+}
+impl<P: SimPrefix> ViewSrc<P, ()> for PrefixSet<P> {
+    fn c_view(&self) -> TrieView<'_, P, ()> {
+        self.view()
+    }
+    fn c_view_at(&self, p: P) -> Option<TrieView<'_, P, ()>> {
+        self.view_at(p)
+    }
+    fn c_view_mut(&mut self) -> TrieViewMut<'_, P, ()> {
+        self.view_mut()
+    }
+    fn c_view_mut_at(&mut self, p: P) -> Option<TrieViewMut<'_, P, ()>> {
+        self.view_mut_at(p)
+    }
+}
 
 pub fn view_ents<P: SimPrefix, T: SimVal>(v: &TrieView<'_, P, T>, cap: usize) -> Vec<Ent> {
     v.iter().take(cap).map(|(p, t)| Ent { key: p.raw().key(), raw: p.raw(), v: t.snap() }).collect()
@@ -85,19 +123,30 @@ fn side_of(parent: Key, child: Key) -> bool {
 
 // ------------------------------------------------------------------------------------------- C11
 
-pub fn pack_c11<P: SimPrefix, T: SimVal>(
+pub fn pack_c11<P: SimPrefix, T: SimVal, C: ViewSrc<P, T>>(
     ctx: &mut Ctx,
     cfg: &Cfg,
-    root: TrieView<'_, P, T>,
+    src: &C,
     t: &Truth,
     canonical: bool,
 ) -> R {
     let salt = ctx.salt ^ ctx.step as u64;
     let cap = 2 * t.nodes.len() + 8;
-    for q in probes::<P>(cfg, &t.ents) {
+    let root = ctx.obs("C11", "view", || src.c_view())?;
+    for (n, q) in probes::<P>(cfg, &t.ents).into_iter().enumerate() {
         let qr = noisy::<P>(q, salt);
         let exp = under(&t.ents, q);
-        let v = ctx.obs("C11", "view_at", || root.clone().view_at(P::make(qr)))?;
+        // alternately through the container's own view_at and through view().view_at
+        let direct = (n as u64 + salt) % 2 == 0;
+        let v = ctx.obs("C11", "view_at", || if direct { src.c_view_at(P::make(qr)) } else { root.clone().view_at(P::make(qr)) })?;
+        if q.len == 0 || (n as u64 + salt) % 5 == 0 {
+            // both paths must address the same thing
+            let both = ctx.obs("C11", "view_at", || {
+                let f = |w: TrieView<'_, P, T>| (w.prefix().raw().key(), w.value().map(|x| x.snap()), view_ents(&w, cap));
+                (src.c_view_at(P::make(qr)).map(f), root.clone().view_at(P::make(qr)).map(f))
+            })?;
+            chk!(ctx, "C11", both.0 == both.1, "view_at:container-vs-view", "container.view_at({q}) = {:?} but container.view().view_at({q}) = {:?}", both.0, both.1);
+        }
         match v {
             None => {
                 chk!(ctx, "C11", exp.is_empty(), "view_at:none-but-entries", "view_at({q}) is None but {:?} are stored under it", exp);
@@ -168,6 +217,15 @@ pub fn pack_c11<P: SimPrefix, T: SimVal>(
             }
         }
     }
+    // chains along one edge: a virtual view found from a virtual view
+    for (q1, q2) in edge_pairs(t, salt, 4) {
+        if let Some(v1) = ctx.obs("C11", "view_at", || src.c_view_at(P::make(noisy::<P>(q1, salt))))? {
+            ctx.rare("probe.virtual view found from a virtual view on the same edge");
+            check_view_at_from(ctx, &v1, q1, &t.ents, q2, salt, cap)?;
+        } else {
+            chk!(ctx, "C11", false, "view_at:none-but-entries", "view_at({q1}) is None although a stored node lies below it");
+        }
+    }
     // recursive descent from the whole-container view
     let pr = probes::<P>(cfg, &t.ents);
     let mut stack = vec![(root.clone(), 0usize)];
@@ -213,7 +271,8 @@ fn expected_view_at(truth: &[Ent], region: Key, q: Key) -> (Vec<Ent>, Option<u64
 fn check_view_at_from<P: SimPrefix, T: SimVal>(ctx: &mut Ctx, v: &TrieView<'_, P, T>, region: Key, truth: &[Ent], q: Key, salt: u64, cap: usize) -> R {
     let (exp, here) = expected_view_at(truth, region, q);
     let qr = noisy::<P>(q, salt);
-    let got = ctx.obs("C11", "view_at(on a view)", || v.clone().view_at(P::make(qr)).map(|w| (w.prefix().raw().key(), w.value().map(|x| x.snap()), view_ents(&w, cap))))?;
+    let w = ctx.obs("C11", "view_at(on a view)", || v.clone().view_at(P::make(qr)))?;
+    let got = ctx.obs("C11", "view_at(on a view)", || w.as_ref().map(|w| (w.prefix().raw().key(), w.value().map(|x| x.snap()), view_ents(w, cap))))?;
     match got {
         None => {
             chk!(ctx, "C11", exp.is_empty(), "subview.view_at:none-but-entries", "view {region}: view_at({q}) is None but the view's entries {:?} are covered by {q}", exp);
@@ -223,9 +282,39 @@ fn check_view_at_from<P: SimPrefix, T: SimVal>(ctx: &mut Ctx, v: &TrieView<'_, P
             chk!(ctx, "C11", p == q, "subview.view_at:prefix", "view {region}: view_at({q}).prefix() = {p}");
             chk!(ctx, "C11", ents == exp, "subview.view_at:iter", "view {region}: view_at({q}) addresses {:?}, the view's entries covered by {q}: {:?}", ents, exp);
             chk!(ctx, "C11", val == here, "subview.view_at:value", "view {region}: view_at({q}).value() = {:?}, stored exactly there: {:?}", val, here);
+            // the sides of a view obtained from a view
+            if let Some(w) = &w {
+                let refs: Vec<&Ent> = exp.iter().collect();
+                check_sides_of(ctx, w, q, &refs, false, cap, "subview.")?;
+            }
         }
     }
     Ok(())
+}
+
+/// pairs (q1, q2) of positions on one edge of the trie (between a node and its child, neither
+/// of them a node): a view at q1 is virtual, and so is the view at q2 found from it
+pub fn edge_pairs(t: &Truth, salt: u64, max: usize) -> Vec<(Key, Key)> {
+    let mut out = vec![];
+    let mut rng = Rng::new(salt ^ 0xED6E);
+    for (i, n) in t.nodes.iter().enumerate() {
+        if !t.reachable[i] {
+            continue;
+        }
+        for c in [n.left, n.right].into_iter().flatten() {
+            let (pk, ck) = (n.raw.key(), t.nodes[c].raw.key());
+            if ck.len < pk.len + 3 {
+                continue;
+            }
+            // lengths pk.len+1 ..= ck.len-1 are virtual positions on this edge
+            let a = pk.len + 1 + (rng.below((ck.len - pk.len - 2) as u64) as u8);
+            let b = a + 1 + (rng.below((ck.len - 1 - a) as u64) as u8);
+            out.push((ck.truncate(a), ck.truncate(b)));
+        }
+    }
+    rng.shuffle(&mut out);
+    out.truncate(max);
+    out
 }
 
 /// left()/right() of one view: prefixes extend the parent's with bit 0/1, entries partition
@@ -237,21 +326,36 @@ fn check_sides<'a, P: SimPrefix, T: SimVal>(
     canonical: bool,
     cap: usize,
 ) -> R<(Option<TrieView<'a, P, T>>, Option<TrieView<'a, P, T>>)> {
-    let (vp, l, r) = ctx.obs("C11", "left/right", || (v.prefix().raw().key(), v.left(), v.right()))?;
+    let vp = ctx.obs("C11", "prefix", || v.prefix().raw().key())?;
     let all = under(truth, vp);
+    check_sides_of(ctx, v, vp, &all, canonical, cap, "")
+}
+
+/// the same for a view at `vp` that must address exactly `all`
+#[allow(clippy::type_complexity)]
+fn check_sides_of<'a, P: SimPrefix, T: SimVal>(
+    ctx: &mut Ctx,
+    v: &TrieView<'a, P, T>,
+    vp: Key,
+    all: &[&Ent],
+    canonical: bool,
+    cap: usize,
+    pre: &str,
+) -> R<(Option<TrieView<'a, P, T>>, Option<TrieView<'a, P, T>>)> {
+    let (l, r) = ctx.obs("C11", "left/right", || (v.left(), v.right()))?;
     for (right, side) in [(false, &l), (true, &r)] {
         let name = if right { "right" } else { "left" };
         let exp: Vec<Ent> = all.iter().filter(|e| e.key.len > vp.len && side_of(vp, e.key) == right).map(|e| (*e).clone()).collect();
         match side {
             None => {
-                chk!(ctx, "C11", exp.is_empty(), format!("{name}:none-but-entries"), "view {vp}: {name}() is None but entries {:?} lie on that side", exp);
+                chk!(ctx, "C11", exp.is_empty(), format!("{pre}{name}:none-but-entries"), "view {vp}: {name}() is None but entries {:?} lie on that side", exp);
             }
             Some(s) => {
                 let (sp, ents) = ctx.obs("C11", "side", || (s.prefix().raw().key(), view_ents(s, cap)))?;
-                chk!(ctx, "C11", sp.len > vp.len && vp.covers(sp) && side_of(vp, sp) == right, format!("{name}:prefix"), "view {vp}: {name}() has prefix {sp}, which does not extend {vp} with bit {}", right as u8);
-                chk!(ctx, "C11", ents == exp, format!("{name}:entries"), "view {vp}: {name}().iter() = {:?}, entries under {vp} with next bit {}: {:?}", ents, right as u8, exp);
+                chk!(ctx, "C11", sp.len > vp.len && vp.covers(sp) && side_of(vp, sp) == right, format!("{pre}{name}:prefix"), "view {vp}: {name}() has prefix {sp}, which does not extend {vp} with bit {}", right as u8);
+                chk!(ctx, "C11", ents == exp, format!("{pre}{name}:entries"), "view {vp}: {name}().iter() = {:?}, entries under {vp} with next bit {}: {:?}", ents, right as u8, exp);
                 if canonical {
-                    chk!(ctx, "C11", !exp.is_empty(), format!("{name}:exists-but-empty"), "canonical trie: view {vp}.{name}() exists but holds no entry");
+                    chk!(ctx, "C11", !exp.is_empty(), format!("{pre}{name}:exists-but-empty"), "canonical trie: view {vp}.{name}() exists but holds no entry");
                 }
             }
         }
@@ -259,41 +363,100 @@ fn check_sides<'a, P: SimPrefix, T: SimVal>(
     Ok((l, r))
 }
 
+/// everything observable about one mutable view, gathered while consuming it
+#[derive(Debug, PartialEq)]
+pub struct MutFacts {
+    p: Key,
+    val: Option<u64>,
+    ents: Vec<Ent>,
+    hl: bool,
+    hr: bool,
+    /// (right side?, Some((prefix, entries)) if that side exists)
+    sides: Vec<(bool, Option<(Key, Vec<Ent>)>)>,
+}
+pub fn mut_facts<P: SimPrefix, T: SimVal>(w: TrieViewMut<'_, P, T>, cap: usize, strategy: u64) -> MutFacts {
+    let p = w.prefix().raw().key();
+    let val = w.value().map(|x| x.snap());
+    let ents = view_ents(&(&w).view(), cap);
+    let (hl, hr) = (w.has_left(), w.has_right());
+    let f = |s: TrieViewMut<'_, P, T>| (s.prefix().raw().key(), view_ents(&(&s).view(), cap));
+    let sides = match strategy % 3 {
+        0 => {
+            let (l, r) = w.split();
+            vec![(false, l.map(f)), (true, r.map(f))]
+        }
+        1 => vec![(false, w.left().ok().map(f))],
+        _ => vec![(true, w.right().ok().map(f))],
+    };
+    MutFacts { p, val, ents, hl, hr, sides }
+}
+/// a mutable view that must sit at `q`, hold `here` and address exactly `exp`
+fn check_mut_facts(ctx: &mut Ctx, f: &MutFacts, what: &str, q: Key, exp: &[Ent], here: Option<u64>, pre: &str) -> R {
+    chk!(ctx, "C11", f.p == q, format!("{pre}:prefix"), "{what}: prefix() = {}, expected {q}", f.p);
+    chk!(ctx, "C11", f.ents == exp, format!("{pre}:iter"), "{what}: addresses {:?}, expected {:?}", f.ents, exp);
+    chk!(ctx, "C11", f.val == here, format!("{pre}:value"), "{what}: value() = {:?}, stored exactly there: {:?}", f.val, here);
+    for (right, side) in &f.sides {
+        let name = if *right { "right" } else { "left" };
+        let has = if *right { f.hr } else { f.hl };
+        let e: Vec<Ent> = exp.iter().filter(|e| e.key.len > q.len && side_of(q, e.key) == *right).cloned().collect();
+        chk!(ctx, "C11", has == side.is_some(), format!("{pre}:has_{name}"), "{what}: has_{name}() = {has} but {name}()/split() gives {}", side.is_some());
+        match side {
+            None => {
+                chk!(ctx, "C11", e.is_empty(), format!("{pre}:{name}:none-but-entries"), "{what}: no {name} side but entries {:?} lie there", e);
+            }
+            Some((sp, se)) => {
+                chk!(ctx, "C11", sp.len > q.len && q.covers(*sp) && side_of(q, *sp) == *right, format!("{pre}:{name}:prefix"), "{what}: {name} side has prefix {sp}");
+                chk!(ctx, "C11", *se == e, format!("{pre}:{name}:entries"), "{what}: {name} side addresses {:?}, expected {:?}", se, e);
+            }
+        }
+    }
+    // has_left/has_right also when only one side was taken
+    let l: Vec<&Ent> = exp.iter().filter(|e| e.key.len > q.len && !side_of(q, e.key)).collect();
+    let r: Vec<&Ent> = exp.iter().filter(|e| e.key.len > q.len && side_of(q, e.key)).collect();
+    chk!(ctx, "C11", f.hl || l.is_empty(), format!("{pre}:has_left:false-but-entries"), "{what}: has_left() = false but {:?} lie on the left", l);
+    chk!(ctx, "C11", f.hr || r.is_empty(), format!("{pre}:has_right:false-but-entries"), "{what}: has_right() = false but {:?} lie on the right", r);
+    Ok(())
+}
+
 /// the same through mutable views (split / left / right / has_left / has_right, view_mut_at)
-pub fn pack_c11_mut<P: SimPrefix>(ctx: &mut Ctx, cfg: &Cfg, real: &mut PrefixMap<P, crate::val::Val>, t: &Truth, canonical: bool) -> R {
+pub fn pack_c11_mut<P: SimPrefix, T: SimVal, C: ViewSrc<P, T>>(ctx: &mut Ctx, cfg: &Cfg, real: &mut C, t: &Truth, canonical: bool) -> R {
     let salt = ctx.salt ^ ctx.step as u64;
     let cap = 2 * t.nodes.len() + 8;
     for (n, q) in probes::<P>(cfg, &t.ents).into_iter().enumerate() {
-        if (n + ctx.step) % 3 != 0 {
+        if (n + ctx.step) % 3 != 0 && q.len != 0 {
             continue;
         }
         let qr = noisy::<P>(q, salt);
         let exp: Vec<Ent> = under(&t.ents, q).into_iter().cloned().collect();
         let got = ctx.obs("C11", "view_mut_at", || {
-            (&mut *real).view_mut_at(P::make(qr)).map(|vm| {
+            real.c_view_mut_at(P::make(qr)).map(|vm| {
                 let ro = (&vm).view();
-                (vm.prefix().raw(), vm.value().map(|x| x.payload), view_ents(&ro, cap), ro.prefix().raw(), ro.value().map(|x| x.payload), vm.prefix_value().map(|(p, x)| (p.raw(), x.payload)))
+                let x = (ro.prefix().raw(), ro.value().map(|x| x.snap()), vm.prefix_value().map(|(p, x)| (p.raw(), x.snap())));
+                (x, mut_facts(vm, cap, mix64(salt ^ n as u64)))
             })
         })?;
         match got {
             None => {
                 chk!(ctx, "C11", exp.is_empty(), "view_mut_at:none-but-entries", "view_mut_at({q}) is None but {:?} are stored under it", exp);
             }
-            Some((vp, val, ents, rop, rov, pv)) => {
+            Some(((rop, rov, pv), f)) => {
                 let here = find_key(&t.ents, q);
-                chk!(ctx, "C11", vp.key() == q && rop.key() == q, "view_mut_at:prefix", "view_mut_at({qr}).prefix() = {vp} (as read-only view: {rop}), expected {q}");
-                chk!(ctx, "C11", val == here.map(|e| e.v) && rov == val, "view_mut_at:value", "view_mut_at({q}).value() = {:?}, stored there: {:?}", val, here);
+                chk!(ctx, "C11", rop.key() == q && rov == f.val, "view_mut_at:as-view", "view_mut_at({qr}) as read-only view: prefix {rop} value {:?}, expected {q} and {:?}", rov, f.val);
                 chk!(ctx, "C11", pv.map(|x| (x.0.key(), x.1)) == here.map(|e| (e.key, e.v)), "view_mut_at:prefix_value", "view_mut_at({q}).prefix_value() = {:?}, stored there: {:?}", pv, here);
-                chk!(ctx, "C11", ents == exp, "view_mut_at:iter", "view_mut_at({q}) addresses {:?}, entries under {q}: {:?}", ents, exp);
+                check_mut_facts(ctx, &f, &format!("view_mut_at({q})"), q, &exp, here.map(|e| e.v), "view_mut_at")?;
                 if canonical && q.len > 0 {
                     chk!(ctx, "C11", !exp.is_empty(), "view_mut_at:exists-but-empty", "canonical trie: view_mut_at({q}) exists but holds no entry");
                 }
             }
         }
     }
-    // view_mut_at issued on a mutable sub-view
+    // view_mut_at / find issued on a mutable sub-view
     let pr = probes::<P>(cfg, &t.ents);
     let mut rng = Rng::new(salt ^ 0xFACE);
+    let mut pairs: Vec<(Key, Key)> = edge_pairs(t, salt ^ 0x33, 4);
+    if pairs.first().is_some() {
+        ctx.rare("probe.mutable virtual view found from a mutable virtual view on the same edge");
+    }
     for _ in 0..6 {
         if pr.is_empty() {
             break;
@@ -303,25 +466,30 @@ pub fn pack_c11_mut<P: SimPrefix>(ctx: &mut Ctx, cfg: &Cfg, real: &mut PrefixMap
             continue;
         }
         for q in c12_queries::<P>(vq, &pr, salt).into_iter().take(7) {
-            let (exp, here) = expected_view_at(&t.ents, vq, q);
-            let got = ctx.obs("C11", "view_mut_at(on a view)", || {
-                (&mut *real).view_mut_at(P::make(vq.raw())).map(|vm| vm.view_mut_at(P::make(noisy::<P>(q, salt))).map(|w| (w.prefix().raw().key(), w.value().map(|x| x.payload), view_ents(&(&w).view(), cap))))
-            })?;
-            let Some(got) = got else { continue };
-            match got {
-                None => {
-                    chk!(ctx, "C11", exp.is_empty(), "subview.view_mut_at:none-but-entries", "mutable view {vq}: view_mut_at({q}) is None but the view's entries {:?} are covered by {q}", exp);
-                }
-                Some((p, val, ents)) => {
-                    chk!(ctx, "C11", p == q, "subview.view_mut_at:prefix", "mutable view {vq}: view_mut_at({q}).prefix() = {p}");
-                    chk!(ctx, "C11", ents == exp, "subview.view_mut_at:iter", "mutable view {vq}: view_mut_at({q}) addresses {:?}, the view's entries covered by {q}: {:?}", ents, exp);
-                    chk!(ctx, "C11", val == here, "subview.view_mut_at:value", "mutable view {vq}: view_mut_at({q}).value() = {:?}, stored exactly there: {:?}", val, here);
-                }
+            pairs.push((vq, q));
+        }
+    }
+    for (n, (vq, q)) in pairs.into_iter().enumerate() {
+        let (exp, here) = expected_view_at(&t.ents, vq, q);
+        let via_find = (n as u64 + salt) % 2 == 0;
+        let got = ctx.obs("C11", "view_mut_at(on a view)", || {
+            real.c_view_mut_at(P::make(vq.raw())).map(|vm| {
+                let w = if via_find { vm.find(P::make(noisy::<P>(q, salt))).ok() } else { vm.view_mut_at(P::make(noisy::<P>(q, salt))) };
+                w.map(|w| mut_facts(w, cap, mix64(salt ^ n as u64 ^ 0x51)))
+            })
+        })?;
+        let Some(got) = got else { continue };
+        match got {
+            None => {
+                chk!(ctx, "C11", exp.is_empty(), "subview.view_mut_at:none-but-entries", "mutable view {vq}: view_mut_at({q}) is None but the view's entries {:?} are covered by {q}", exp);
+            }
+            Some(f) => {
+                check_mut_facts(ctx, &f, &format!("mutable view {vq}: view_mut_at({q})"), q, &exp, here, "subview.view_mut_at")?;
             }
         }
     }
     // recursive descent, consuming the views
-    let root = real.view_mut();
+    let root = real.c_view_mut();
     let mut stack = vec![(root, 0usize)];
     let mut visited = 0usize;
     while let Some((vm, depth)) = stack.pop() {
@@ -334,7 +502,7 @@ pub fn pack_c11_mut<P: SimPrefix>(ctx: &mut Ctx, cfg: &Cfg, real: &mut PrefixMap
         let all: Vec<Ent> = under(&t.ents, vp).into_iter().cloned().collect();
         chk!(ctx, "C11", ents == all, "view_mut:entries", "mutable view {vp} addresses {:?}, entries under it: {:?}", ents, all);
         let strategy = mix64(salt ^ vp.bits as u64 ^ ((vp.len as u64) << 40)) % 4;
-        let sides: Vec<(bool, Option<TrieViewMut<'_, P, crate::val::Val>>, bool)> = match strategy {
+        let sides: Vec<(bool, Option<TrieViewMut<'_, P, T>>, bool)> = match strategy {
             0 | 1 => {
                 let (l, r) = ctx.obs("C11", "split", || vm.split())?;
                 vec![(false, l, true), (true, r, true)]
